@@ -135,7 +135,7 @@ func main() {
 		os.Exit(doReplay(chk, *replay))
 	}
 	if *budget == 0 {
-		*budget = 240
+		*budget = 480
 		if tier == props.Thorough {
 			*budget = 3600
 		}
